@@ -224,10 +224,11 @@ def gen_cuts(R, conn, streams_len, recbounds, policy=None):
         elif policy == "mss":
             mss = R.choice([1, 5, 7, 100, 536, 1220, 1460, 1460, 8960, 16000])
             cs = set(range(mss, n, mss))
-            if mss == 1 and n > 3000:
-                # 1-byte segments only over a window, to bound the capture size
+            if n // mss > 1000:
+                # tiny segments only over a window: TLExport's reassembly is quadratic in the number of buffered
+                # segments, thousands of them cost tens of CPU seconds (performance is not a property under test)
                 a = R.range(0, n - 1)
-                cs = set(range(a, min(n, a + 400)))
+                cs = set(range(a, min(n, a + 800 * mss), mss))
         elif policy == "random":
             k = R.range(0, min(60, max(1, n // 2)))
             cs = set(R.range(1, max(1, n - 1)) for _ in range(k))
